@@ -186,6 +186,11 @@ func (w *World) Step() {
 		if w.R.Intn(2) == 0 {
 			t = qsr
 		}
+		if w.R.Intn(6) == 0 {
+			// a data-only send: no token at all
+			w.submit("transfer-data-only", u, &nom.AccountBlock{BlockType: nom.BlockTypeUserSend, ToAddress: w.user().Address, TokenStandard: types.ZeroTokenStandard, Amount: big.NewInt(0), Data: []byte("note")})
+			break
+		}
 		w.submit("transfer", u, &nom.AccountBlock{BlockType: nom.BlockTypeUserSend, ToAddress: w.user().Address, TokenStandard: t, Amount: w.amount(50)})
 	case k < 8: // receive something pending (by the addressee, sometimes by a stranger)
 		if len(w.ToContracts) > 0 && w.R.Intn(4) == 0 {
@@ -208,7 +213,7 @@ func (w *World) Step() {
 			if b := w.submit("receive", key, &nom.AccountBlock{BlockType: nom.BlockTypeUserReceive, FromBlockHash: h}); b != nil && key.Address == a {
 				w.Pending[a] = list[1:]
 			}
-			if w.R.Intn(6) == 0 { // try to receive it a second time
+			if w.R.Intn(3) == 0 { // try to receive it a second time
 				w.submit("receive-again", key, &nom.AccountBlock{BlockType: nom.BlockTypeUserReceive, FromBlockHash: h})
 			}
 			break
